@@ -81,7 +81,12 @@ fn keying(seed: u64, t: usize, g: usize, dir: u8) -> SrtpKeyingMaterial {
 }
 
 /// dir 0 = what the transport protects with (its tx), dir 1 = what it unprotects with (its rx)
-fn session(profile: SrtpProfile, tx: SrtpKeyingMaterial, rx: SrtpKeyingMaterial) -> SrtpSession {
+fn session(profile: SrtpProfile, mut tx: SrtpKeyingMaterial, mut rx: SrtpKeyingMaterial) -> SrtpSession {
+    // salt lengths as PeerConnection::setup_srtp / setup_sdes hand them over (12 bytes for AEAD_AES_128_GCM)
+    if profile == SrtpProfile::AeadAes128Gcm {
+        tx.master_salt.truncate(12);
+        rx.master_salt.truncate(12);
+    }
     SrtpSession::new(profile, tx, rx).unwrap_or_else(|e| tool_error(&format!("SrtpSession::new: {e}")))
 }
 
@@ -462,6 +467,29 @@ fn inbound(w: &mut World, rtcp: bool, auth: &str, step: usize, rng: &mut Rng) ->
 
 // --------------------------------------------------------------------------------- classification
 
+/// Second opinion from an unrelated implementation (webrtc-srtp 0.17.2): does the datagram authenticate under
+/// these keys? None = the reference could not be asked (it panicked or refused the keys).
+fn reference_accepts(profile: SrtpProfile, k: &SrtpKeyingMaterial, is_rtcp: bool, d: &[u8]) -> Option<bool> {
+    use webrtc_srtp::context::Context;
+    use webrtc_srtp::protection_profile::ProtectionProfile as P;
+    let pp = match profile {
+        SrtpProfile::Aes128Sha1_80 => P::Aes128CmHmacSha1_80,
+        SrtpProfile::Aes128Sha1_32 => P::Aes128CmHmacSha1_32,
+        SrtpProfile::AeadAes128Gcm => P::AeadAes128Gcm,
+        _ => return None,
+    };
+    let sl = pp.salt_len();
+    if k.master_key.len() < 16 || k.master_salt.len() < sl {
+        return None;
+    }
+    catch(|| {
+        let mut ctx = Context::new(&k.master_key[..16], &k.master_salt[..sl], pp, None, None).ok()?;
+        Some(if is_rtcp { ctx.decrypt_rtcp(d).is_ok() } else { ctx.decrypt_rtp(d).is_ok() })
+    })
+    .ok()
+    .flatten()
+}
+
 /// Class of a datagram captured on transport t's wire.
 fn classify(w: &mut World, t: usize, d: &[u8]) -> (char, Value) {
     let is_rtcp = d.len() >= 2 && (192..=223).contains(&d[1]);
@@ -491,11 +519,18 @@ fn classify(w: &mut World, t: usize, d: &[u8]) -> (char, Value) {
                 }
             };
             if ok {
+                let reference = reference_accepts(profile, &keying(kseed, t, g, 0), is_rtcp, d);
                 if leaks_plaintext {
                     return ('c', json!({"why": "authenticates but the plaintext is visible", "gen": g, "rtcp": is_rtcp}));
                 }
-                return ('p', json!({"gen": g, "rtcp": is_rtcp}));
+                return ('p', json!({"gen": g, "rtcp": is_rtcp, "reference": reference}));
             }
+        }
+    }
+    // rustrtc's own receiver refuses it: an unrelated implementation holding the same keys has the last word
+    for g in (1..=w.gen_[t]).rev() {
+        if reference_accepts(profile, &keying(kseed, t, g, 0), is_rtcp, d) == Some(true) && !leaks_plaintext {
+            return ('p', json!({"gen": g, "rtcp": is_rtcp, "reference": true, "own_receiver": false}));
         }
     }
     ('c', json!({"why": if leaks_plaintext { "plaintext visible, does not authenticate" } else { "does not authenticate under any installed session" },
@@ -640,10 +675,11 @@ struct Seen {
 /// just run (datagrams / deliveries whose content identifies no step are attributed to it); `ops[i]` is the
 /// operation of step i.
 fn observe(net: &mut Net, w: &mut World, k: usize, ops: &[&str], stats: &mut Stats) -> Seen {
-    observe2(net, w, k, ops, stats, true)
+    observe2(net, w, k, k, ops, stats, true)
 }
 
-fn observe2(net: &mut Net, w: &mut World, k: usize, ops: &[&str], stats: &mut Stats, count_late: bool) -> Seen {
+/// `rcv_k`: the receive operation a forwarded datagram with unreadable payload is attributed to.
+fn observe2(net: &mut Net, w: &mut World, k: usize, rcv_k: usize, ops: &[&str], stats: &mut Stats, count_late: bool) -> Seen {
     let nonce = w.nonce;
     let mut wire = Vec::new();
     let mut deliveries: Vec<(char, Option<usize>)> = Vec::new();
@@ -656,10 +692,10 @@ fn observe2(net: &mut Net, w: &mut World, k: usize, ops: &[&str], stats: &mut St
                     continue;
                 }
                 Some((_, Some(s))) if s < ops.len() => s,
-                Some((_, None)) => bridged_origin(w, t, &d).unwrap_or(k),
+                Some((_, None)) => bridged_origin(w, t, &d).unwrap_or(rcv_k),
                 _ => k,
             };
-            if origin_step != k && count_late {
+            if origin_step != k && origin_step != rcv_k && count_late {
                 stats.late += 1;
                 if std::env::var("GATE_DEBUG").is_ok() {
                     eprintln!("late: origin {origin_step} k {k} ops {ops:?} id {:?}", wire_identity(&d));
@@ -667,9 +703,22 @@ fn observe2(net: &mut Net, w: &mut World, k: usize, ops: &[&str], stats: &mut St
             }
             let (cls, detail) = classify(w, t, &d);
             stats.datagrams += 1;
+            if cls == 'p' && (detail["reference"] == json!(false) || detail["own_receiver"] == json!(false)) {
+                stats.ref_disagree += 1;
+                let kind = format!("{:?}/{}", w.profile, if detail["rtcp"] == json!(true) { "rtcp" } else { "rtp" });
+                if !stats.ref_kinds.contains(&kind) {
+                    stats.ref_kinds.push(kind.clone());
+                    stats.ref_examples.push(json!({"type": "divergence", "rule": "EXT", "field": "reference", "op": kind,
+                        "expected": "rustrtc's receiver context and webrtc-srtp 0.17.2 agree that the datagram authenticates",
+                        "observed": detail, "len": d.len()}));
+                }
+            }
+            if cls == 'p' && detail["reference"] == json!(true) {
+                stats.ref_agree += 1;
+            }
             if ops[origin_step.min(k)].starts_with('R') {
                 // a datagram caused by a receive step was forwarded by the bridge fast path
-                deliveries.push(('b', bridged_origin(w, t, &d)));
+                deliveries.push(('b', bridged_origin(w, t, &d).or(Some(origin_step))));
             }
             wire.push(WireObs { t, cls, detail, origin_step, len: d.len() });
         }
@@ -1016,6 +1065,7 @@ fn run_edge(net: &mut Net, baton: &Arc<Baton>, case: &Value, idx: usize, seed: u
     // the operation running on each task, by the index of the step that started it
     let mut ops: Vec<String> = vec![String::new(); sched.len()];
     let mut cur_op: [Option<usize>; 3] = [None; 3];
+    let mut last_rcv_op: usize = 0;
     // which inbound packets may be delivered: valid ones, once X has a session (judged per delivery below)
     let n = sched.len();
     let mut divs: Vec<Value> = Vec::new();
@@ -1024,6 +1074,9 @@ fn run_edge(net: &mut Net, baton: &Arc<Baton>, case: &Value, idx: usize, seed: u
         let cmd = if !op.is_empty() {
             ops[i] = op.clone();
             cur_op[*task] = Some(i);
+            if *task == 1 {
+                last_rcv_op = i;
+            }
             let (act, _how) = prepare(op, &mut w, i, &mut rng);
             Some(Cmd { act, tr: w.tr.clone(), conn: w.conn[0].clone(), peer_addr: net.peer_addr[0] })
         } else {
@@ -1035,7 +1088,7 @@ fn run_edge(net: &mut Net, baton: &Arc<Baton>, case: &Value, idx: usize, seed: u
             divs.push(json!({"rule": "NoPanic", "field": "panic", "observed": m, "at": LAST_PANIC_AT.lock().clone(), "step": i + 1}));
         }
         let opsr: Vec<&str> = ops.iter().map(|s| s.as_str()).collect();
-        let seen = observe(net, &mut w, cur_op[*task].unwrap_or(i), &opsr, stats);
+        let seen = observe2(net, &mut w, cur_op[*task].unwrap_or(i), last_rcv_op, &opsr, stats, true);
         let last = i + 1 == n;
         // the step structure of the code (beyond the property: a refactoring may legitimately change it)
         if model_label(&parked) != lbl {
@@ -1112,7 +1165,7 @@ fn run_edge(net: &mut Net, baton: &Arc<Baton>, case: &Value, idx: usize, seed: u
         baton.m.lock().unwrap().result[k] = None;
     }
     let opsr: Vec<&str> = ops.iter().map(|s| s.as_str()).collect();
-    let tail = observe2(net, &mut w, n.saturating_sub(1), &opsr, stats, false);
+    let tail = observe2(net, &mut w, n.saturating_sub(1), last_rcv_op, &opsr, stats, false);
     for o in &tail.wire {
         if req[o.t] && o.cls != 'p' {
             divs.push(json!({"rule": if w.gen_[o.t] == 0 { "NothingBeforeKeys" } else { "NoClearEgress" }, "field": "wire",
@@ -1153,6 +1206,10 @@ struct Stats {
     late: u64,
     stale: u64,
     unspecified: u64,
+    ref_agree: u64,
+    ref_disagree: u64,
+    ref_kinds: Vec<String>,
+    ref_examples: Vec<Value>,
 }
 
 /// Run a future, turning a panic inside the code under test into data.
@@ -1226,9 +1283,13 @@ fn main() {
             let case: Value = serde_json::from_str(&line).unwrap_or_else(|e| tool_error(&format!("line {}: {e}", i + 1)));
             run_edge(&mut net, &baton, &case, i, seed, &mut out, &mut stats);
         }
+        for e in &stats.ref_examples {
+            out.push(e);
+        }
         out.push(&json!({"type": "summary", "behaviours": stats.behaviours, "steps": stats.steps,
                          "datagrams": stats.datagrams, "deliveries": stats.deliveries, "diverged": stats.diverged,
-                         "late": stats.late, "stale": stats.stale, "unspecified": stats.unspecified}));
+                         "late": stats.late, "stale": stats.stale, "unspecified": stats.unspecified,
+                         "ref_agree": stats.ref_agree, "ref_disagree": stats.ref_disagree}));
         out.finish();
         std::process::exit(0); // task threads are parked; nothing to join
     }
@@ -1250,9 +1311,13 @@ fn main() {
             let case: Value = serde_json::from_str(&line).unwrap_or_else(|e| tool_error(&format!("line {}: {e}", i + 1)));
             run_behaviour(&mut net, &case, i, seed, &mut out, &mut stats).await;
         }
+        for e in &stats.ref_examples {
+            out.push(e);
+        }
         out.push(&json!({"type": "summary", "behaviours": stats.behaviours, "steps": stats.steps,
                          "datagrams": stats.datagrams, "deliveries": stats.deliveries, "diverged": stats.diverged,
-                         "late": stats.late, "stale": stats.stale}));
+                         "late": stats.late, "stale": stats.stale, "ref_agree": stats.ref_agree,
+                         "ref_disagree": stats.ref_disagree}));
         out.finish();
     });
 }
